@@ -163,7 +163,7 @@ constexpr bool unary (V &v, const Op &op, Ctx &cx)
       return true;
     case C_reserve: v.reserve (static_cast<sz_t> (op.a[0])); return true;
     case C_shrink: v.shrink_to_fit (); return true;
-    case C_at: if (static_cast<sz_t> (op.a[0]) >= sz) return false; r.ret = val_of (v.at (static_cast<sz_t> (op.a[0]))); return true;
+    case C_at: if ((op.na > 1 && op.a[1] != 0) || static_cast<sz_t> (op.a[0]) >= sz) return false;   /* a throwing at() is no constant expression */   r.ret = val_of (v.at (static_cast<sz_t> (op.a[0]))); return true;
     default: return false;
     }
 }
